@@ -395,3 +395,108 @@ func SelectPaths(paths []Path, bind Bindings) ([]int, error) {
 	}
 	return out, nil
 }
+
+// EvalFloat evaluates an arithmetic origin term over float64 leaves.
+func EvalFloat(s string, bind map[string]float64) (float64, error) {
+	p := &fparser{s: s, bind: bind}
+	v, err := p.expr()
+	if err != nil {
+		return 0, err
+	}
+	if p.pos != len(s) {
+		return 0, evalErr{"trailing input in " + s}
+	}
+	return v, nil
+}
+
+type fparser struct {
+	s    string
+	pos  int
+	bind map[string]float64
+}
+
+func (p *fparser) expr() (float64, error) {
+	r := p.s[p.pos:]
+	best := ""
+	for k := range p.bind {
+		if strings.HasPrefix(r, k) && len(k) > len(best) {
+			end := p.pos + len(k)
+			if end == len(p.s) || isDelim(p.s[end]) {
+				best = k
+			}
+		}
+	}
+	if best != "" {
+		p.pos += len(best)
+		return p.bind[best], nil
+	}
+	switch {
+	case strings.HasPrefix(r, "("):
+		p.pos++
+		l, err := p.expr()
+		if err != nil {
+			return 0, err
+		}
+		p.pos++
+		i := strings.IndexByte(p.s[p.pos:], ' ')
+		if i < 0 {
+			return 0, evalErr{"bad binop"}
+		}
+		op := p.s[p.pos : p.pos+i]
+		p.pos += i + 1
+		rv, err := p.expr()
+		if err != nil {
+			return 0, err
+		}
+		if !strings.HasPrefix(p.s[p.pos:], ")") {
+			return 0, evalErr{"expected )"}
+		}
+		p.pos++
+		switch op {
+		case "+":
+			return l + rv, nil
+		case "-":
+			return l - rv, nil
+		case "*":
+			return l * rv, nil
+		case "/":
+			return l / rv, nil
+		}
+		return 0, evalErr{"unsupported operator " + op}
+	case strings.HasPrefix(r, "conv:"):
+		i := strings.IndexByte(r, '(')
+		typ := r[len("conv:"):i]
+		p.pos += i + 1
+		v, err := p.expr()
+		if err != nil {
+			return 0, err
+		}
+		p.pos++
+		switch typ {
+		case "int64", "int", "uint64":
+			return float64(int64(v)), nil
+		case "float32":
+			return float64(float32(v)), nil
+		case "float64":
+			return v, nil
+		}
+		return 0, evalErr{"unsupported conversion " + typ}
+	case strings.HasPrefix(r, "const:"):
+		p.pos += len("const:")
+		j := p.pos
+		for j < len(p.s) && !isDelim(p.s[j]) {
+			j++
+		}
+		v, err := strconv.ParseFloat(p.s[p.pos:j], 64)
+		if err != nil {
+			return 0, evalErr{err.Error()}
+		}
+		p.pos = j
+		return v, nil
+	}
+	n := len(r)
+	if n > 50 {
+		n = 50
+	}
+	return 0, evalErr{"unbound term " + r[:n]}
+}
